@@ -6,7 +6,7 @@
    filter of Spec/RTS.v on the closed-form integrated-Wiener transition. *)
 From Coq Require Import List Arith.
 From PD Require Import Base.Field Base.Matrix Base.Solve Model.Gauss Model.Poly Model.Prior Model.Solver Spec.RTS
-  Proofs.GaussProofs Proofs.FilterProofs Proofs.PriorProofs Proofs.SolverRefine Proofs.SolverGrid Proofs.SolverRefineLin Proofs.SolverRefineBlock.
+  Proofs.GaussProofs Proofs.FilterProofs Proofs.PriorProofs Proofs.SolverRefine Proofs.SolverGrid Proofs.SolverRefineLin Proofs.SolverRefineBlock Proofs.EmbedProofs Proofs.SolverRefineDense.
 Import ListNotations.
 
 Section C02.
@@ -127,6 +127,31 @@ Section C02.
                   (bd_pred q base2 dt rvs a)
         = Some (nth a (st_u st') dfltN).
   Proof. exact blockdiag_filter_step_is_per_dimension_ekf. Qed.
+
+  (* DENSE model, equal base scales, TS0: the dense solver step from an embedded
+     state returns the Kronecker embedding  upd (x) I_d  of the textbook EKF
+     posterior (composition of the isotropic refinement above with the embedding
+     theorem of C14), for every polynomial field, q, d, damping and step *)
+  Theorem C02_dense_ts0_filter_step_is_embedded_ekf_step :
+    forall (q d : nat) (o : @odeP F) (base2D base2I : @vec F) (damp2 : F)
+           (stD stI stD' stI' : @sstate F) (rv : @normal F) (pcD pcI : list (@cond F)) (dt : F),
+      let cfD := mkCfg (mkShape Dense q d) Filter CalNone TS0 o base2D damp2 in
+      let cfI := mkCfg (mkShape Iso q d) Filter CalNone TS0 o base2I damp2 in
+      ode_k o <= S q ->
+      (forall a, a < d -> vget base2D a = vget base2I 0) ->
+      dt <> f0 ->
+      st_t stD = st_t stI ->
+      st_u stI = [rv] -> st_post stI = mkPost [rv] pcI ->
+      st_post stD = mkPost [embed_normal (S q) d rv] pcD ->
+      symmetric (S q) (n_cov (kf_predict (S q) d (iwp_A_closed q dt) (mzero (S q) d)
+                                (iwp_Q_closed q dt (fmul (vget base2I 0) f1)) rv)) ->
+      solver_step minv cfD stD dt = Some stD' ->
+      solver_step minv cfI stI dt = Some stI' ->
+      exists upd fx,
+        ekf_step_iso q d o (fmul (vget base2I 0) f1) damp2 (fadd (st_t stI) dt) dt rv = Some (upd, fx) /\
+        st_u stI' = [upd] /\
+        st_u stD' = [embed_normal (S q) d upd].
+  Proof. exact dense_ts0_filter_step_is_embedded_ekf_step. Qed.
 End C02.
 
 Print Assumptions C02_prediction_is_kalman_prediction.
@@ -137,3 +162,4 @@ Print Assumptions C02_symmetry_is_invariant.
 Print Assumptions C02_isotropic_ts0_fixed_grid_is_ekf.
 Print Assumptions C02_isotropic_fixed_grid_is_extended_kalman_filter.
 Print Assumptions C02_blockdiag_filter_step_is_per_dimension_ekf.
+Print Assumptions C02_dense_ts0_filter_step_is_embedded_ekf_step.
